@@ -106,38 +106,52 @@ const BIND_IP: Ipv4Addr = Ipv4Addr::new(127, 89, 7, 2);
 struct Target {
     addr: SocketAddr,
     listener: Option<TcpListener>,
+    /// A closed target keeps its port: a socket that is bound but never listens. Connecting to it
+    /// is refused like a connect to a free port, but no other listener of this process (the next
+    /// target, a case running on another thread) can be given the same port in the meantime.
+    _reserved: Option<tokio::net::TcpSocket>,
 }
 
 fn make_target(live: bool) -> Target {
-    let l = TcpListener::bind((HARNESS_IP, 0)).expect("bind");
-    l.set_nonblocking(true).unwrap();
-    let addr = l.local_addr().unwrap();
     if live {
-        Target { addr, listener: Some(l) }
+        let l = TcpListener::bind((HARNESS_IP, 0)).expect("bind");
+        l.set_nonblocking(true).unwrap();
+        let addr = l.local_addr().unwrap();
+        Target { addr, listener: Some(l), _reserved: None }
     } else {
-        drop(l);
-        Target { addr, listener: None }
+        let s = tokio::net::TcpSocket::new_v4().expect("socket");
+        s.bind(SocketAddr::from((HARNESS_IP, 0))).expect("bind");
+        let addr = s.local_addr().unwrap();
+        Target { addr, listener: None, _reserved: Some(s) }
     }
 }
 
-fn accepts(t: &Target) -> usize {
+/// Connections waiting on the target's listener; waits (up to 0.5 s) for the `want` expected ones:
+/// a loopback connect normally completes in the kernel before connect() returns to the client,
+/// but the listener's side may be processed a moment later on a busy machine.
+fn accepts(t: &Target, want: usize) -> usize {
     let mut n = 0;
     if let Some(l) = &t.listener {
-        // loopback connects complete in the kernel before connect() returns to the client
-        for _ in 0..50 {
+        let deadline = std::time::Instant::now() + Duration::from_millis(500);
+        loop {
             match l.accept() {
                 Ok(_) => n += 1,
                 Err(_) => {
-                    if n > 0 {
+                    if n >= want && n > 0 {
+                        break;
+                    }
+                    if n >= want {
+                        // nothing expected: one short grace period for a stray attempt
+                        std::thread::sleep(Duration::from_micros(200));
+                        if let Ok(_) = l.accept() {
+                            n += 1;
+                        }
+                        break;
+                    }
+                    if std::time::Instant::now() > deadline {
                         break;
                     }
                     std::thread::sleep(Duration::from_micros(200));
-                    if n == 0 {
-                        match l.accept() {
-                            Ok(_) => n += 1,
-                            Err(_) => break,
-                        }
-                    }
                 }
             }
         }
@@ -286,14 +300,15 @@ fn check_a(rt: &tokio::runtime::Runtime, c: &ACase) -> Option<(String, String)> 
             }
             // exactly the chosen listener saw a connection
             for (i, t) in targets.iter().enumerate() {
-                let n = accepts(t);
                 let want = (Some(t.addr) == first_live) as usize;
+                let n = accepts(t, want);
                 if n != want {
                     return bad("unexpected-connection-attempts", format!("listener #{i} ({}) accepted {n} connection(s), expected {want}", t.addr));
                 }
             }
-            let dn = accepts(&decoy);
-            if dn != (first_live == Some(decoy.addr)) as usize {
+            let dwant = (first_live == Some(decoy.addr)) as usize;
+            let dn = accepts(&decoy, dwant);
+            if dn != dwant {
                 return bad("unexpected-connection-attempts", format!("the decoy listener accepted {dn} connection(s)"));
             }
         }
@@ -374,8 +389,8 @@ fn a_extras(rt: &tokio::runtime::Runtime, bag: &mut VioBag) -> u64 {
     // IPv4 local address (refused by the kernel before anything is sent, a different errno);
     // the reference is what each candidate gives when it is dialled alone.
     {
-        let closed = make_target(false).addr;
-        let closed2 = make_target(false).addr;
+        let (closed_t, closed2_t) = (make_target(false), make_target(false));
+        let (closed, closed2) = (closed_t.addr, closed2_t.addr);
         let v6: SocketAddr = "[::1]:9".parse().unwrap();
         let dial = |list: Vec<SocketAddr>| -> Result<SocketAddr, (String, Option<i32>)> {
             rt.block_on(async {
@@ -411,7 +426,8 @@ fn a_extras(rt: &tokio::runtime::Runtime, bag: &mut VioBag) -> u64 {
     // connector answers `Unresolved`, a connector with a resolver consults it
     for n_addrs in 1..=2usize {
         let live = make_target(true);
-        let stale: Vec<SocketAddr> = (0..n_addrs).map(|_| make_target(false).addr).collect();
+        let stale_t: Vec<Target> = (0..n_addrs).map(|_| make_target(false)).collect();
+        let stale: Vec<SocketAddr> = stale_t.iter().map(|t| t.addr).collect();
         for via_resolver in [false, true] {
             n += 1;
             let calls = Rc::new(RefCell::new(vec![]));
@@ -663,7 +679,7 @@ pub fn run(args: &Args) -> i32 {
     rep.set("exhaustive", true);
     rep.sample(json!({"part": "connect", "list": [false, false, true, true], "supply": "Preset", "host": "IpWithPort", "expect": "connected to entry #2, listener #3 and the decoy behind the IP-literal host string saw nothing, the resolver was never called"}));
     rep.sample(json!({"part": "tls", "lib": "Openssl", "cert": "OtherName", "name": "Matching", "expect": "handshake error"}));
-    rep.assume("closed ports are obtained by binding and dropping a listener on a private loopback address (127.89.7.1); another process grabbing that port in between would disturb a case");
+    rep.assume("a closed port is a port on a private loopback address (127.89.7.1) that a socket of the harness has bound without listening: connects are refused, and nobody else can be given the port while the case runs");
     rep.assume("TLS server side is tokio-rustls for both connector kinds; certificates from rcgen");
     rep.finish()
 }
